@@ -187,10 +187,14 @@ let c_ccase = function
   | _ -> fail_sx "ccase"
 
 let c_taskarg = c_opt (c_pair c_str c_bool)
+let c_targ = function
+  | C ("TA", [t]) -> TA (c_taskarg t)
+  | C ("TL", [id]) -> TL (c_str id)
+  | _ -> fail_sx "targ"
 let c_gop = function
-  | C ("GAdd", [t]) -> GAdd (c_taskarg t)
-  | C ("GDep", [t; deps]) -> GDep (c_taskarg t, c_list c_taskarg deps)
-  | C ("GRetries", [t; n]) -> GRetries (c_taskarg t, c_z n)
+  | C ("GAdd", [t]) -> GAdd (c_targ t)
+  | C ("GDep", [t; deps]) -> GDep (c_targ t, c_list c_targ deps)
+  | C ("GRetries", [t; n]) -> GRetries (c_targ t, c_z n)
   | _ -> fail_sx "gop"
 let c_outcome = function A "ONil" -> ONil | A "OErr" -> OErr | A "OSkipParents" -> OSkipParents | _ -> fail_sx "outcome"
 let c_oevent = function
@@ -201,7 +205,7 @@ let c_oevent = function
   | _ -> fail_sx "oevent"
 let c_gerr = function
   | A "XNilTask" -> XNilTask | A "XMissingID" -> XMissingID | A "XCycle" -> XCycle | A "XCancel" -> XCancel
-  | C ("XMissingFn", [x]) -> XMissingFn (c_str x) | C ("XTask", [x]) -> XTask (c_str x) | C ("XSkipped", [x]) -> XSkipped (c_str x)
+  | C ("XMissingFn", [x]) -> XMissingFn (c_str x) | C ("XTask", [x]) -> XTask (c_str x) | C ("XSkipped", [x]) -> XSkipped (c_str x) | C ("XNotFound", [x]) -> XNotFound (c_str x)
   | C ("XDupDep", [a; b]) -> XDupDep (c_str a, c_str b)
   | _ -> fail_sx "gerr"
 let c_gcase = function
